@@ -529,7 +529,7 @@ func (c *collector) flush(r *eng.Run) {
 // of hanging the check. After the first such report the run is cut short (renderAborted). The watchdog looks
 // at whole work items (one pattern with all its renderings) from outside: handing every rendering to a
 // goroutine of its own made pass A several times slower on a loaded machine.
-const renderTimeout = 60 * time.Second
+const renderTimeout = 10 * time.Minute // generous: under load 200+ a healthy item can stall for a long time; only a real endless loop should trip this
 
 var renderAborted int32
 
